@@ -5,12 +5,13 @@ pub mod c02;
 pub mod c03;
 pub mod c04;
 pub mod c16;
+pub mod c17;
 pub mod c19;
 
 use crate::exec::Prop;
 
 pub fn all() -> Vec<Box<dyn Prop>> {
-    vec![Box::new(c01::C01), Box::new(c02::C02), Box::new(c03::C03), Box::new(c04::C04), Box::new(c16::C16), Box::new(c19::C19)]
+    vec![Box::new(c01::C01), Box::new(c02::C02), Box::new(c03::C03), Box::new(c04::C04), Box::new(c16::C16), Box::new(c17::C17), Box::new(c19::C19)]
 }
 
 pub fn by_id(id: &str) -> Option<Box<dyn Prop>> {
